@@ -266,7 +266,7 @@ func (server *Server) tlsReceive(conn net.Conn, tlsConfig *tls.Config) error {
 	server.RemoveConn(handshakeConn)
 	if err != nil {
 		log.Error(err)
-		return errors.Join(err, conn.Close())
+		return errors.Join(err, handshakeConn.Close())
 	}
 	tlsState := tlsConn.ConnectionState()
 	return server.receive(tlsConn, &tlsState)
